@@ -2,6 +2,7 @@ import Drivers.Chk
 import Drivers.Num
 import Drivers.TimeD
 import Drivers.Tab
+import Drivers.StoreD
 
 def main (args : List String) : IO UInt32 := do
   let stdin ← IO.getStdin
@@ -10,4 +11,6 @@ def main (args : List String) : IO UInt32 := do
   | ["num"] => Drivers.loop stdin () (fun _ l => ((), Drivers.Num.step l)); return 0
   | ["time"] => Drivers.loop stdin () (fun _ l => ((), Drivers.TimeD.step l)); return 0
   | ["tab"] => Drivers.loop stdin (⟨[], 0, 0⟩ : Fix8Model.SortedSet.PSet) Drivers.Tab.stepAll; return 0
+  | ["store"] => Drivers.loop stdin Drivers.StoreD.St.none Drivers.StoreD.step; return 0
+  | ["crash"] => Drivers.loop stdin Fix8Model.Store.FS.init Drivers.CrashD.step; return 0
   | _ => IO.eprintln "usage: driver <stream>"; return 2
